@@ -41,6 +41,13 @@ class Unknown(Exception):
     pass
 
 
+class ClassRef:
+    """a class of the package used as a value (passed to a helper that calls isinstance with it)"""
+
+    def __init__(self, name: str):
+        self.name = name
+
+
 class _Raise(Exception):
     pass
 
@@ -599,6 +606,8 @@ class Interp:
                             break
                 if self._const_cache.get(e.id) is not None:
                     return self._const_cache[e.id]
+            if self.prog.find_cls(e.id) is not None:
+                return ClassRef(e.id)
             return Opaque(f"name {e.id}")
         if isinstance(e, ast.UnaryOp) and isinstance(e.op, ast.Not):
             v = self.ev(e.operand, env)
@@ -1149,7 +1158,16 @@ class Interp:
                     return tuple(reversed(out_))
             if name == "isinstance" and len(e.args) == 2:
                 v = self.ev(e.args[0], env)
-                names_ = [x.id for x in (e.args[1].elts if isinstance(e.args[1], ast.Tuple) else [e.args[1]]) if isinstance(x, ast.Name)]
+                names_ = []
+                for x in (e.args[1].elts if isinstance(e.args[1], ast.Tuple) else [e.args[1]]):
+                    # a class named directly, or a variable / parameter that holds a class
+                    cv = env.get(x.id) if isinstance(x, ast.Name) and x.id in env else None
+                    if isinstance(cv, ClassRef):
+                        names_.append(cv.name)
+                    elif isinstance(x, ast.Name) and x.id not in env and self.prog.find_cls(x.id) is not None:
+                        names_.append(x.id)
+                    else:
+                        return Opaque("isinstance against a class that is not resolved")
                 if isinstance(v, PointSym) and names_:
                     return any(n_ in POINT_CLASSES for n_ in names_)
                 if isinstance(v, SymObject) and hasattr(v, "kinds") and names_:
@@ -1539,6 +1557,19 @@ class Interp:
                 if name:
                     env[name] = Opaque(str(ex))
             return
+        if isinstance(st, ast.For) and not st.orelse and not any(isinstance(x, (ast.Break, ast.Continue)) for x in ast.walk(st)):
+            # a loop over a sequence that is known: unrolled
+            try:
+                seq = self.ev(st.iter, env)
+            except (Unknown, NotPolynomial):
+                seq = None
+            if isinstance(seq, Table) and len(seq.shape) >= 1:
+                seq = [seq.get(i) for i in range(seq.shape[0])]
+            if isinstance(seq, (list, tuple, range)) and len(seq) <= 32:
+                for item in seq:
+                    self.assign(st.target, item, env)
+                    self.block(st.body, env)
+                return
         # loops, with, try, del ...: whatever they may write is no longer known
         self.forget_written(st, env, "written in a statement outside the vocabulary")
 
@@ -2037,6 +2068,8 @@ def rule_crossratio(run: Run, prog: Program) -> int:
                 it.block(fn.node.body, env)
             except _Done as d:
                 got = d.matrix
+            except _Raise:
+                got = Opaque("the path raises")
             if isinstance(got, Ratio):
                 num, den = got.num, got.den
             elif isinstance(got, LP):
@@ -2439,6 +2472,9 @@ class SymDiagram(SymObject):
     def __init__(self, edges: list):
         self.edges = edges
 
+    def add_edge(self, a, b):
+        self.edges.append((a, b))
+
     def calculate(self):
         nodes: list = []
         unused: dict = {}
@@ -2536,7 +2572,7 @@ def rule_join_meet(run: Run, prog: Program) -> int:
         it.generic = True
         it.hooks = {"LeviCivitaTensor": lambda a_, k_: levi_civita(a_[0], a_[1] if len(a_) > 1 else k_.get("covariant", True))
                     if a_ and isinstance(a_[0], int) and isinstance(a_[1] if len(a_) > 1 else k_.get("covariant", True), bool) else Opaque("eps"),
-                    "TensorDiagram": lambda a_, k_: SymDiagram([tuple(x) for x in a_]) if a_ and all(isinstance(x, (list, tuple)) and len(x) == 2 for x in a_) else Opaque("diagram"),
+                    "TensorDiagram": lambda a_, k_: SymDiagram([tuple(x) for x in a_]) if all(isinstance(x, (list, tuple)) and len(x) == 2 for x in a_) else Opaque("diagram"),
                     "from_tensor": lambda a_, k_: a_[-1], "_divide_by_power_of_two": lambda a_, k_: a_[0], "max": lambda a_, k_: Opaque("max"), "frexp": lambda a_, k_: Opaque("frexp")}
         env = {params.vararg.arg: list(args)}
         for kwarg, d in zip(params.kwonlyargs, params.kw_defaults):
@@ -2701,7 +2737,7 @@ def rule_metric_constructions(run: Run, prog: Program) -> int:
             return t
         it.hooks = {"LeviCivitaTensor": lambda a_, k_: levi_civita(a_[0], a_[1] if len(a_) > 1 else k_.get("covariant", True))
                     if a_ and isinstance(a_[0], int) and isinstance(a_[1] if len(a_) > 1 else k_.get("covariant", True), bool) else Opaque("eps"),
-                    "TensorDiagram": lambda a_, k_: SymDiagram([tuple(x) for x in a_]) if a_ and all(isinstance(x, (list, tuple)) and len(x) == 2 for x in a_) else Opaque("diagram"),
+                    "TensorDiagram": lambda a_, k_: SymDiagram([tuple(x) for x in a_]) if all(isinstance(x, (list, tuple)) and len(x) == 2 for x in a_) else Opaque("diagram"),
                     "from_tensor": lambda a_, k_: a_[-1], "_divide_by_power_of_two": lambda a_, k_: a_[0],
                     "join": lambda a_, k_: dual_call(a_, k_), "meet": lambda a_, k_: dual_call(a_, k_),
                     "Point": lambda a_, k_: vec(a_, True), "Line": lambda a_, k_: vec(a_, False), "Plane": lambda a_, k_: vec(a_, False)}
